@@ -90,7 +90,7 @@ func loadASTCoverage(c *Check) *astCoverage {
 	sort.Slice(parserFuncs, func(i, j int) bool { return parserFuncs[i].Name() < parserFuncs[j].Name() })
 	a.parserFn = len(parserFuncs)
 	for _, w := range fieldWriters(parserFuncs, tracked) {
-		if _, ok := a.written[w.Field]; !ok {
+		if prev, ok := a.written[w.Field]; !ok || w.Func < prev {
 			a.written[w.Field] = w.Func
 		}
 	}
@@ -120,7 +120,7 @@ func (a *astCoverage) readsFrom(roots ...*ssa.Function) (map[string]string, int)
 			if o.FullName() == obj.FullName() {
 				n++
 				for k := range fieldReads(fi, structs) {
-					if _, ok := out[k]; !ok {
+					if prev, ok := out[k]; !ok || fi.Name() < prev {
 						out[k] = fi.Name()
 					}
 				}
